@@ -1285,6 +1285,14 @@ fn c07_graceful(ix: &Ix, f: &mut Findings) {
             Some((_, false, _)) => {}
             other => f.v("C07.graceful", Some(a), format!("actor {a} was neither killed nor crashed but on_stop(killed=false) did not run: {:?}", other)),
         }
+        // ... once, and to its end: a graceful on_stop is neither abandoned half-way nor followed by another on_stop
+        if x.stop_enter.len() > 1 || (x.stop_enter.len() == 1 && x.stop_exit.is_empty()) {
+            f.v(
+                "C07.graceful",
+                Some(a),
+                format!("actor {a} was neither killed nor crashed: on_stop was entered {} time(s) (killed flags {:?}) and finished {} time(s) - the graceful on_stop(false) must run once and to completion", x.stop_enter.len(), x.stop_enter.iter().map(|s| s.1).collect::<Vec<_>>(), x.stop_exit.len()),
+            );
+        }
         if let Some(p) = &sum.panic {
             f.v("C07.graceful", Some(a), format!("actor {a}: no hook panicked or failed and nobody killed it, yet its JoinHandle did not resolve with a result but with a panic: {p}"));
         }
